@@ -290,7 +290,7 @@ Print Assumptions C03_flush_partial_sends.
    [Base o] = an op of the machine above, [XCheck t r] = the load and comparison, [XSet t] = the
    store, [XEnq t] = queueInLoop / runInLoop / runAfter) executes them one by one.
 
-   REFUTED (finding "foreign-close-request-check-then-store").  "forceClose() brings the
+   REFUTED (finding F-19, key "foreign-close-request-races-close").  "forceClose() brings the
    connection DOWN exactly once" is false when the loop thread closes the connection between a
    foreign request's load and its store: the store overwrites kDisconnected with kDisconnecting,
    and the queued connectDestroyed (or, if that has already run, the queued forceCloseInLoop)
